@@ -19,6 +19,7 @@ import (
 	"math"
 	"math/big"
 	"reflect"
+	"strconv"
 	"time"
 
 	"github.com/google/uuid"
@@ -322,7 +323,14 @@ func (dec *Decoder) LastReferenceIndex() int {
 
 // ReadReference to p.
 func (dec *Decoder) ReadReference(p interface{}) {
-	o := dec.refer.Read(dec.ReadInt())
+	i := dec.ReadInt()
+	o, ok := dec.refer.Read(i)
+	if !ok {
+		if dec.Error == nil {
+			dec.Error = DecodeError("hprose/io: invalid reference " + strconv.Itoa(i))
+		}
+		return
+	}
 	src := reflect.TypeOf(o)
 	dest := reflect.TypeOf(p).Elem()
 	if conv := GetConverter(src, dest); conv != nil {
